@@ -3,7 +3,7 @@ PROP = "C03"
 
 
 def run(tier):
-    ck = simprops.run_prop(PROP, tier, n_quick=6000, n_thorough=80000, e2e=(500, 5000))
+    ck = simprops.run_prop(PROP, tier, n_quick=6000, n_thorough=80000, e2e=(500, 5000), late_targets=(600, 8000))
     return ck.finish()
 
 
